@@ -80,7 +80,7 @@ def run_case(case, ses):
 def run_model(spec, ses):
     z3 = z3mod()
     name = spec['name']
-    tower = spec['atom'] in TOWER_ATOMS
+    tower = spec['atom'] in TOWER_ATOMS or spec.get('base') == 'power3'
     with quiet():
         cm = Compiled(detgen.desc_from_spec(spec), abstract_towers=tower)
     ses.stats.programs += 1
@@ -100,7 +100,7 @@ def run_model(spec, ses):
         for bi, blk in enumerate(blocks):
             loc = sorted(blk['locals'])
             bc = cp.block_cons(blk, vs)
-            nonlin = bool(blk['cones'] or blk.get('pcones'))
+            nonlin = bool(blk['cones'] or blk.get('pcones') or blk.get('xcones'))
             label = '%s/block%d(%dr,%dl%s)' % (name, bi, len(blk['rows']), len(loc), ',cone' if nonlin else '')
             q = z3.ForAll([vs[j] for j in loc], z3.Not(z3.And(bc))) if loc else z3.Not(z3.And(bc))
             res, model = ses.oblige(label, S + Sdefs, [q], kind=('projection-nra' if nonlin else 'projection-lra'),
@@ -124,7 +124,7 @@ def run_model(spec, ses):
     with quiet():
         cmr = Compiled(detgen.desc_from_spec(spec)) if tower else cm
         try:
-            if cmr.cp.qmat:
+            if cmr.cp.qmat or cmr.cp.xmat:
                 from rsome import eco_solver as solver
                 cmr.r.m.solve(solver, display=False)
             else:
@@ -134,6 +134,10 @@ def run_model(spec, ses):
             reported = None
             ses.stats.notes.append('%s: solve failed %s' % (name, str(e)[:60]))
     sign = cm.o.obj[0]
+    if cp.xmat:
+        # exponential cones: phi is uninterpreted, so optimum statements are meaningless in the abstraction;
+        # only the (stretch) projection obligations above are claimed for these atoms
+        return
     if not cp.qmat and not cp.pcones and not Sdefs:
         P = cp.constraints(vs)
         sp, vp = ses.optimum(P, vs[0], label=name + '/optP', ints=cp.int_vars(vs))
